@@ -371,12 +371,8 @@ func checkPerHandReset(c *Ctx, lc *lifecycle) {
 		}
 		if v.Kind == "slice" {
 			// make([]T, 0) and []T{} compile to a slice of a zero-length array
-			if al, ok := v.Args[0].Strip().V.(*ssa.Alloc); ok {
-				if pt, ok := al.Type().Underlying().(*types.Pointer); ok {
-					if at, ok := pt.Elem().Underlying().(*types.Array); ok && at.Len() == 0 {
-						return true
-					}
-				}
+			if al, ok := v.Args[0].Strip().V.(*ssa.Alloc); ok && zeroLenArrayAlloc(al) {
+				return true
 			}
 		}
 		return false
@@ -459,4 +455,13 @@ func loopBodyHead(hdr *ssa.BasicBlock) *ssa.BasicBlock {
 		}
 	}
 	return nil
+}
+
+func zeroLenArrayAlloc(al *ssa.Alloc) bool {
+	if pt, ok := al.Type().Underlying().(*types.Pointer); ok {
+		if at, ok := pt.Elem().Underlying().(*types.Array); ok && at.Len() == 0 {
+			return true
+		}
+	}
+	return false
 }
